@@ -131,3 +131,10 @@ prop("C03",
      rule="rapid-generated KV histories (puts, deletes, expired and live TTL puts over 3-8 keys on the alphabet {a,b,c}, reopen steps, all three index modes); then for every prefix of every written key ALL pages are enumerated: PrefixScan(prefix, offset, limit) for offset 0..n+1 and limit in {ScanNoLimit} U 1..n+1 (n = keys ever written under the prefix) and PrefixSearchScan(prefix, regexp, 0, limit) for every such limit; each page must equal live_prefixed[offset:offset+limit] of the model ('not found' only when that slice is empty). Non-trivial: under some prefix a deleted or expired key precedes a live key; inner_enumerations counts the pages checked.",
      assumptions=["limit 0 and limits below -1 are unspecified and not generated"],
      technique="model-based property testing (rapid) with exhaustive page enumeration per generated history")
+
+prop("C22",
+     level="exploration",
+     tests=[dict(name="TestC22", quick=1500, thorough=15000)],
+     rule="for each rapid-generated KV history and creator mode (all 3), a directory in a drawn state is produced - empty, freshly opened and closed, written (history executed), merged (history + Merge, RAM creators), or crashed (a drawn prefix of the recorded file-mutation trace) - and then opened, on a copy, with EACH of the three index modes (the 3x3 mode pairs are enumerated per case). Oracle: sparse<->RAM on a directory holding data => Open returns an error; whenever Open returns an error the directory tree (names, sizes, bytes) is identical before and after; RAM<->RAM on KV data => Open succeeds and the observation equals the source's; a directory holding no data either fails (tree unchanged) or opens empty. Non-trivial: directory with >=2 segments or a crash image.",
+     assumptions=["'holds data' = some data segment contains a non-zero byte"],
+     technique="property-based testing (rapid) with enumeration of mode pairs and directory states")
